@@ -11,6 +11,7 @@ GEN_FAMILIES = {
     "gen_operators": ({}, {}),
     "gen_pipelines": ({"Bound": 2}, {"Bound": 3}),
     "gen_statements": ({"Bound": 3}, {"Bound": 5}),
+    "gen_wide": ({"Bound": 0}, {"Bound": 1}),        # long lists in every list position (9/17/33, thorough 17/33/70)
 }
 
 # the same families through spec/Walk.tla: design-level WalkCorrect and the expected visit log per program
